@@ -14,8 +14,8 @@ import (
 // a whole containment check becomes ONE formula over the symbolic leaves instead of a fork per
 // comparison.  Natively they are ordinary Go.
 
-func isVar(s string) bool      { return strings.HasPrefix(s, "?") }
-func isOptVar(s string) bool   { return strings.HasPrefix(s, "??") }
+func isVar(s string) bool    { return strings.HasPrefix(s, "?") }
+func isOptVar(s string) bool { return strings.HasPrefix(s, "??") }
 func numeric(x interface{}) (float64, bool) {
 	switch v := x.(type) {
 	case float64:
